@@ -1,6 +1,7 @@
 package main
 
 import (
+	"fmt"
 	"encoding/binary"
 	"errors"
 	"io"
@@ -49,6 +50,14 @@ func (s *c17Src) Read(p []byte) (int, error) {
 	}
 	return m, nil
 }
+
+type c17Layered struct{ pe *thrift.ProtocolException }
+
+func (e *c17Layered) Error() string        { return "lower layer: " + e.pe.Error() }
+func (e *c17Layered) Unwrap() error        { return e.pe }
+func (e *c17Layered) Is(target error) bool { return target == c17ErrInjected }
+
+func chunks0(s []V) []V { return AsList(s[2]) }
 
 func c17Obs(err error) V {
 	if err == nil {
@@ -146,7 +155,19 @@ func c17Run(in V) V {
 		s := AsList(a[4])
 		final := io.EOF
 		if AsInt(s[0]) == 21 {
-			final = c17ErrInjected
+			// the injected value is the sentinel itself, the sentinel wrapped by a lower layer, or a
+			// lower layer's error that matches the sentinel AND carries a thrift ProtocolException in
+			// its chain (a framing layer that failed while decoding): all three must stay matchable
+			// with errors.Is after the stream reader has wrapped them
+			d := AsBytes(a[3])
+			switch (len(d) + len(chunks0(s))) % 3 {
+			case 0:
+				final = c17ErrInjected
+			case 1:
+				final = fmt.Errorf("read frame: %w", c17ErrInjected)
+			default:
+				final = &c17Layered{pe: thrift.NewProtocolException(thrift.INVALID_DATA, "frame header")}
+			}
 		}
 		var chunks []int
 		for _, c := range AsList(s[2]) {
